@@ -96,3 +96,129 @@ seed("c20-solve-basic-guard-after", "C20", "src/matrix/solve.rs", """        if 
         self.gauss_with_pivot( &mut x );
         if self.rows != self.cols() { 
             panic!( "solve_basic error: matrix is not square" ); }""", "reject/matrix::Matrix<T>::solve_basic")
+
+# ---------------------------------------------------------------- C13
+CM = "src/complex/mod.rs"
+seed("c13-mulassign-stale", "C13", CM, "        self.imag += a * rhs.imag;\n    }\n}\n\nimpl<T: Clone + Number> DivAssign for", "        self.imag += self.real.clone() * rhs.imag;\n    }\n}\n\nimpl<T: Clone + Number> DivAssign for", "stale-read")
+seed("c13-div-imag-sign", "C13", CM, "let imag = self.imag * divisor.real - self.real * divisor.imag;", "let imag = self.real * divisor.imag - self.imag * divisor.real;", "field/")
+seed("c13-partialcmp-imag-first", "C13", CM, """        if self.real != other.real {
+            self.real.partial_cmp( &other.real )
+        } else {
+            self.imag.partial_cmp( &other.imag )
+        }""", """        if self.imag != other.imag {
+            self.imag.partial_cmp( &other.imag )
+        } else {
+            self.real.partial_cmp( &other.real )
+        }""", "eq-ord/partial_cmp")
+seed("c13-mul-real-plus", "C13", CM, "let real = self.real.clone() * times.real.clone() - self.imag.clone() * times.imag.clone();", "let real = self.real.clone() * times.real.clone() + self.imag.clone() * times.imag.clone();", "field/")
+seed("c13-divassign-no-den", "C13", CM, "        self.imag /= denominator;\n", "        let _ = denominator;\n", "assign-bit-identical")
+seed("c13-divassign-reassoc", "C13", CM, """        self.real *= rhs.real.clone();
+        self.real += self.imag.clone() * rhs.imag.clone();
+        self.real /= denominator.clone();
+""", """        self.real *= rhs.real.clone() / denominator.clone();
+        self.real += self.imag.clone() * rhs.imag.clone() / denominator.clone();
+""", "assign-bit-identical", "field-equal but not bit-identical")
+seed("c13-arg-swapped", "C13", CM, "self.imag.atan2(self.real)", "self.real.atan2(self.imag)", "abs-arg/arg")
+seed("c13-eq-real-only", "C13", CM, "self.real == other.real && self.imag == other.imag", "self.real == other.real && self.imag == self.imag", "eq-ord/eq")
+seed("c13-conj-noneg", "C13", CM, "Self::new(self.real.clone(), -self.imag.clone())", "Self::new(self.real.clone(), self.imag.clone())", "field/")
+seed("c13-subT-plus", "C13", CM, "Self::Output::new( self.real - minus, self.imag )", "Self::Output::new( self.real + minus, self.imag )", "field/")
+seed("c13-one-imag", "C13", CM, "Self::new(One::one(), Zero::zero())", "Self::new(One::one(), One::one())", "field/")
+seed("c13-addassign-imag-minus", "C13", CM, "        self.real += rhs.real;\n        self.imag += rhs.imag;", "        self.real += rhs.real;\n        self.imag -= rhs.imag;", "assign-bit-identical")
+seed("c13-divT-mul", "C13", CM, "Self::Output::new( self.real / scalar.clone(), self.imag / scalar )", "Self::Output::new( self.real / scalar.clone(), self.imag * scalar )", "field/")
+
+# ---------------------------------------------------------------- C16
+VF = "src/vector/vec_f64.rs"
+seed("c16-last-end-chunk", "C16", VF, "let end = if i == num_threads - 1 { self.size() } else { (i + 1) * chunk_size };", "let end = (i + 1) * chunk_size;", "partition")
+seed("c16-different-windows", "C16", VF, "let w_slice = &w.vec[start..end];", "let w_slice = &w.vec[start..self.size()];", "same-window")
+seed("c16-start-off", "C16", VF, "let start = i * chunk_size;", "let start = i * chunk_size + if i > 0 { 1 } else { 0 };", "partition")
+seed("c16-chunk-ceil", "C16", VF, "let chunk_size = self.size() / num_threads;", "let chunk_size = ( self.size() + num_threads - 1 ) / num_threads;", "workers", "ceil chunking overruns when len < T")
+seed("c16-threads-cap", "C16", VF, "for i in 0..num_threads {\n                let start", "for i in 0..num_threads.min( 4 ) {\n                let start", "workers")
+seed("c16-worker-offset", "C16", VF, "result += self_slice[i] * w_slice[i];", "result += self_slice[i] * w_slice[ w_slice.len() - 1 - i ];", "worker-sum")
+seed("c16-lastworker-test", "C16", VF, "if i == num_threads - 1 { self.size() }", "if i == num_threads { self.size() }", "partition")
+seed("c16-guard-dropped", "C16", VF, 'if self.size() != w.size() { panic!( "Vector sizes do not agree dot()." ); }\n        let num_threads', 'let num_threads', "guard")
+
+# ---------------------------------------------------------------- C17
+NW = "src/newton.rs"
+seed("c17-loop-inclusive", "C17", NW, """        let mut current: f64 = self.guess;
+        for _ in 0..self.max_iter {""", """        let mut current: f64 = self.guess;
+        for _ in 0..=self.max_iter {""", "bounded/loop")
+seed("c17-ok-after-loop", "C17", NW, """        Err( current ) 
+    }
+}
+
+impl Newton<Cmplx> {""", """        Ok( current ) 
+    }
+}
+
+impl Newton<Cmplx> {""", "ok-tested")
+seed("c17-extra-eval", "C17", NW, """            let dx = func(current) / deriv;
+            current -= dx;
+            if dx.abs() <= self.tol {
+                return Ok( current );
+            }
+        }
+        Err( current ) 
+    }
+}
+
+impl Newton<Cmplx> {""", """            let dx = func(current) / deriv;
+            current -= dx;
+            if dx.abs() <= self.tol && func(current).abs() < 1.0 {
+                return Ok( current );
+            }
+        }
+        Err( current ) 
+    }
+}
+
+impl Newton<Cmplx> {""", "eval-count")
+seed("c17-ok-wrong-test", "C17", NW, """            let dx: Vec64 = j.solve_basic( &f );
+            current -= dx;
+            if max_residual <= self.tol {
+                return Ok( current )
+            }
+        }
+        Err( current )
+    }
+
+    /// Solve the vector equation via Newton iteration using the exact Jacobian
+    #[inline] 
+    pub fn solve_jacobian(&self, func: &dyn Fn(Vec64) -> Vec64, """, """            let dx: Vec64 = j.solve_basic( &f );
+            current -= dx;
+            if max_residual <= self.delta {
+                return Ok( current )
+            }
+        }
+        Err( current )
+    }
+
+    /// Solve the vector equation via Newton iteration using the exact Jacobian
+    #[inline] 
+    pub fn solve_jacobian(&self, func: &dyn Fn(Vec64) -> Vec64, """, "ok-tested")
+seed("c17-deriv-forward-diff", "C17", NW, """            let deriv = ( func( current + self.delta ) - 
+                          func( current - self.delta ) ) / ( 2.0 * self.delta );
+            let dx""", """            let deriv = ( func( current + self.delta ) - 
+                          func( current - self.delta ) ) / ( self.delta );
+            let dx""", "step")
+seed("c17-err-guess", "C17", NW, """                return Ok( current );
+            }
+        }
+        Err( current ) 
+    }
+}
+
+impl Newton<Cmplx> {""", """                return Ok( current );
+            }
+        }
+        Err( self.guess ) 
+    }
+}
+
+impl Newton<Cmplx> {""", "failure-carries-iterate")
+seed("c17-jacobian-at-guess", "C17", NW, "let mut j = Mat64::jacobian( current.clone(), func, self.delta );", "let mut j = Mat64::jacobian( self.guess.clone(), func, self.delta );", "step")
+seed("c17-update-plus", "C17", NW, """            let mut j: Mat64 = jac( current.clone() ); 
+            let dx: Vec64 = j.solve_basic( &f );
+            current -= dx;""", """            let mut j: Mat64 = jac( current.clone() ); 
+            let dx: Vec64 = j.solve_basic( &f );
+            current += dx;""", "ok-tested")
+
